@@ -167,6 +167,28 @@ def run(tier, seed):
             rec.ok(("string-document", "pointer"))
         else:
             rec.fail("string-document:pointer", f"json pointer -p '' -f <file containing the JSON string \"[1, 2, 3]\">: exit {code}, stdout {out[:60]!r}, stderr {err[:200]!r}; the library resolves the empty pointer to the string itself", "sys.exit(2)")
+        # an expression file is read whole and stripped: blank lines around the expression, the expression over several lines
+        for k, body in enumerate(("\n$.a[*].b\n", "\n\n  $.a[*].b  \n\n", "$.a[*]\n.b\n", "$.a\n[*]\n.b")):
+            qf = write(f"multi{k}.txt", body)
+            code, out, err, tb = run_main(["path", "-r", qf, "-f", good])
+            try:
+                want = json.dumps(jsonpath.findall(body.strip(), DOC))
+            except Exception:  # noqa: BLE001
+                want = None
+            if want is not None and code == 0 and out == want and not tb:
+                rec.ok(("multi-line", k))
+            elif want is None and code == 1 and not tb:
+                rec.ok(("multi-line-rejected", k))
+            else:
+                rec.fail(f"multi-line:{k}", f"json path -r <file containing {body!r}> -f doc.json: exit {code}, stdout {out[:80]!r}, stderr {err[:200]!r}; the library on the stripped text gives {want!r}", "sys.exit(2)")
+        # an inline pointer is taken as written (trailing blanks belong to the last token)
+        spaced = write("spaced.json", json.dumps({"a": 1, "a ": 2, " a": 3}))
+        for ptr, want in (("/a ", 2), ("/a", 1)):
+            code, out, err, tb = run_main(["pointer", "-p", ptr, "-f", spaced])
+            if code == 0 and out == json.dumps(want) and not tb:
+                rec.ok(("spaced-pointer", ptr))
+            else:
+                rec.fail(f"spaced-pointer:{ptr}", f"json pointer -p {ptr!r} -f <{{'a': 1, 'a ': 2, ' a': 3}}>: exit {code}, stdout {out[:60]!r}; jsonpath.pointer.resolve gives {want!r}", "sys.exit(2)")
         badpatch = write("badpatch.json", "[{")
         case("patch", [badpatch], lambda: (_ for _ in ()).throw(ValueError()), None, {"global": [], "sub": []}, good, False, False, "patch:malformed")
         # a few real subprocess runs
